@@ -309,7 +309,7 @@ func TestC20_LargeScale(t *testing.T) {
 		for r := 0; r < rounds; r++ {
 			s := sortedCopy(all)
 			lo, hi := s[0], s[len(s)-1]
-			m := rapid.SampledFrom([]int{1, 2, 10, 500, 5000}).Draw(t, "batch")
+			m := rapid.SampledFrom([]int{1, 2, 10, 500, 5000, 65535, 65536, 131072}).Draw(t, "batch")
 			if rapid.IntRange(0, 3).Draw(t, "topow2") == 0 {
 				// a batch that brings the size to the next power of two exactly
 				p := 1
